@@ -267,6 +267,11 @@ class WaitConnAck(State):
             else:
                 self.event_initiator_rcv_conn_nack()
 
+            #: The CER has just been sent (or the connection failed): whatever
+            #: is received from now on belongs to the next state. Reading it
+            #: here would swallow a CEA that arrives within this very tick.
+            return
+
         if self.has_recv_queue_message():
             self.msg = self.get_message()
 
